@@ -18,7 +18,8 @@ void harness(void){
   NewMatrix(&S,HP_K-1,5); for(size_t i=0;i+1<HP_K;i++)for(size_t j=0;j<5;j++) S->data[i][j]=in_double(-1e3,1e3);
 #else
   initMatrix(&S);
-#endif double X[HP_K], Y[HP_K];
+#endif
+  double X[HP_K], Y[HP_K];
 #if HP_WHICH==2
   for(size_t i=0;i<HP_K;i++) X[i]=(double)(i*i)+0.5*(double)i-1.25;      /* concrete irregular knots: the piece search is decided by constants */
 #else
